@@ -160,6 +160,12 @@ func RunC12(c *Ctx) {
 	workload.W1R(sink)
 	workload.W1Words(sink)
 	workload.W1First(sink)
+	workload.W1RL(sink)
+	workload.W1Len(func(cs *h.Case) {
+		if cs.P[2] == 0 {
+			sink(cs)
+		}
+	})
 	nullVariants(sink)
 	workload.W1(c.Thorough(), func(cs *h.Case) {
 		if cs.P[0] < workload.TopLevelSeeds() {
@@ -473,8 +479,14 @@ func RunC13(c *Ctx) {
 	workload.W1R(sink)
 	workload.W1Words(sink)
 	workload.W1First(sink)
+	workload.W1RL(sink)
 	nullVariants(sink)
 	workload.W1(c.Thorough(), sink)
+	workload.W1Len(func(cs *h.Case) {
+		if cs.P[2] == 0 {
+			sink(cs)
+		}
+	})
 	n := 300000
 	if c.Thorough() {
 		n = 3000000
